@@ -1,4 +1,5 @@
 import Sgz.Model.Headers
+import Sgz.Proofs.HeaderTable
 /-!
 # C04 — trace-header preservation
 
@@ -113,5 +114,84 @@ theorem heuristic_needs_H2 : regen srcH2 (classify srcH2) 1 1 ≠ srcH2.h 1 1 :=
 def srcOk : Src := { F := 3, T := 4, h := fun t f => if f = 0 then 42 else (10 + t) }
 example : classify srcOk = [(42, 0), (0, 2), (0, 2)] ∧ storedFields (classify srcOk) = [1] ∧ arrayCount (classify srcOk) = 1 := by
   decide
+
+/-! ### through the stored form of the table (bytes 980 … 2047 of the header block)
+
+The theorems above are about the table as a list of rows.  A file stores it as 12 bytes per row with the fields' real
+codes; the reader decodes those bytes again (`Model/Header.putTable` / `getTable`, `Model/HeaderTable.toTRows` / `ofTRows`).
+Whatever injective, non-zero, 32-bit code assignment the format uses, the table a reader reconstructs from the bytes is
+the table the writer classified — so every statement above holds for what a reader regenerates *from the file*. -/
+
+theorem table_through_bytes (code : Nat → Int) (inj : ∀ a b, code a = code b → a = b) (nz : ∀ a, code a ≠ 0)
+    (hcode : ∀ a, Header.i32 (code a)) (tbl : List Row) (hd : ∀ r ∈ tbl, r.2 ≤ tbl.length)
+    (hc : ∀ r ∈ tbl, Header.i32 r.1) (h : Header.Bytes) :
+    HeaderTable.ofTRows code tbl.length
+      (Header.getTable (Header.putTable h (HeaderTable.toTRows code tbl)) tbl.length) = tbl := by
+  have hlen : (HeaderTable.toTRows code tbl).length = tbl.length := by simp [HeaderTable.toTRows]
+  have hr : ∀ r ∈ HeaderTable.toTRows code tbl, Header.i32 r.1 ∧ Header.i32 r.2.1 ∧ Header.i32 r.2.2 := by
+    intro r hr
+    unfold HeaderTable.toTRows at hr
+    obtain ⟨f, hf, rfl⟩ := List.mem_map.mp hr
+    have hfl := List.mem_range.mp hf
+    have hget : tbl.getD f (0, 0) = tbl[f] := by
+      rw [List.getD_eq_getElem?_getD, List.getElem?_eq_getElem hfl]; rfl
+    refine ⟨hcode f, ?_, ?_⟩
+    · simp only [hget]; exact hc _ (List.getElem_mem hfl)
+    · simp only
+      split
+      · exact ⟨by omega, by omega⟩
+      · exact hcode _
+  have := Header.getTable_putTable h (HeaderTable.toTRows code tbl) hr
+  rw [hlen] at this
+  rw [this]
+  exact HeaderTable.ofTRows_toTRows code inj nz tbl hd
+
+theorem classify_codes_in_range (s : Src) : ∀ r ∈ classify s, r.2 ≤ (classify s).length := by
+  intro r hr
+  unfold classify at hr ⊢
+  obtain ⟨f, hf, rfl⟩ := List.mem_map.mp hr
+  have hfl := List.mem_range.mp hf
+  simp only [List.length_map, List.length_range]
+  split
+  · have := (rep_spec s f).1; simp only; omega
+  · simp
+
+/-- heuristic detection, end to end through the file's bytes -/
+theorem heuristic_exact_through_bytes (s : Src) (h1 : H1 s) (h2 : H2 s) (code : Nat → Int)
+    (inj : ∀ a b, code a = code b → a = b) (nz : ∀ a, code a ≠ 0) (hcode : ∀ a, Header.i32 (code a))
+    (hc : ∀ f, Header.i32 (s.first f)) (h : Header.Bytes) (t f : Nat) (hf : f < s.F) (ht : t < s.T) :
+    regen s (HeaderTable.ofTRows code (classify s).length
+      (Header.getTable (Header.putTable h (HeaderTable.toTRows code (classify s))) (classify s).length)) t f = s.h t f := by
+  rw [table_through_bytes code inj nz hcode (classify s) (classify_codes_in_range s) ?_ h]
+  · exact heuristic_exact s h1 h2 t f hf ht
+  · intro r hr
+    unfold classify at hr
+    obtain ⟨g, _, rfl⟩ := List.mem_map.mp hr
+    split
+    · exact ⟨by simp, by simp⟩
+    · exact hc g
+
+/-- exhaustive detection, end to end through the file's bytes: no hypothesis on the header content -/
+theorem exhaustive_exact_through_bytes (s : Src) (code : Nat → Int)
+    (inj : ∀ a b, code a = code b → a = b) (nz : ∀ a, code a ≠ 0) (hcode : ∀ a, Header.i32 (code a))
+    (h : Header.Bytes) (t f : Nat) (hf : f < s.F) :
+    regen s (HeaderTable.ofTRows code (classifyAll s).length
+      (Header.getTable (Header.putTable h (HeaderTable.toTRows code (classifyAll s))) (classifyAll s).length)) t f = s.h t f := by
+  rw [table_through_bytes code inj nz hcode (classifyAll s) ?_ ?_ h]
+  · exact exhaustive_exact s t f hf
+  · intro r hr
+    unfold classifyAll at hr ⊢
+    obtain ⟨g, hg, rfl⟩ := List.mem_map.mp hr
+    have := List.mem_range.mp hg
+    simp only [List.length_map, List.length_range]; omega
+  · intro r hr
+    unfold classifyAll at hr
+    obtain ⟨g, _, rfl⟩ := List.mem_map.mp hr
+    exact ⟨by simp, by simp⟩
+
+-- non-vacuity: the SEG-Y byte positions 1, 5, 9, … as codes
+example : HeaderTable.ofTRows (fun f => 4 * f + 1) 3
+    (Header.getTable (Header.putTable (fun _ => 0) (HeaderTable.toTRows (fun f => 4 * f + 1) [(7, 0), (0, 2), (0, 2)])) 3)
+    = [(7, 0), (0, 2), (0, 2)] := by decide
 
 end Sgz.Props.C04
